@@ -370,3 +370,56 @@ META["C07"] = {
                    "edi format must give back exactly the logical pieces. Exploration."),
     "level_note": "Trusted: the harness' EDI writer. Delimiter sets are disjoint by construction (overlapping delimiters are C03's domain).",
 }
+
+add("C06", "TestC06",
+    rule=("Cases: a logical table (gen.Table: 1-8 columns, 0-10 records) for csv, csv2, fixed-length or fixedlength2 with layouts rows "
+          "1-3, header/footer, header-only and a read-ahead probe layout (a non-target header/footer record whose footer never occurs, "
+          "so lines stay buffered across pops); 16 delimiters (blank, regexp meta characters, a letter, multi-byte runes); CRLF or LF, "
+          "blank lines, unterminated last line; rows shorter and longer than declared; csv2 index explicit or defaulted, line_index / "
+          "line_pattern; fixed columns with gaps, overlaps, start_pos and length past the line; replace_double_quotes; header "
+          "verification with matches and mismatches, header_row_index / data_row_index jumps; line and field lengths from 0..20 plus "
+          "windows 4090-4100, 8185-8200, 65530-65540. The table is the model; an own RFC-4180 writer and fixed-width renderer produce the "
+          "bytes; a pass-through schema (no_trim, keep_empty_or_null) runs through NewSchema + Read. Oracle: every record equals the "
+          "model row for every column, in row order, then io.EOF; a mismatched header gives a fatal first Read and no record. "
+          "Non-trivial: a field contains delimiter, quote, LF or a multi-byte rune, or a physical line exceeds 4096 bytes, or a record "
+          "spans >= 2 lines; distinct by SHA-256 of the case."),
+    quick={"checks": 1500, "shards": 4, "timeout": 900},
+    thorough={"checks": 40000, "shards": 16, "timeout": 3300},
+    floors={"line>4096": 0.20, "multi-line": 0.25, "multi-byte": 0.30},
+    assumptions=["CR inside quoted csv fields is excluded (Go's decoder normalises CRLF inside quotes)",
+                 "csv delimiters quote, CR, LF, NUL, U+FFFD are C03's domain; with replace_double_quotes the delimiter ' is excluded",
+                 "for a column 'empty text' and 'no node / null' are equivalent, as the statement allows ('nothing/empty')",
+                 "old csv header_row_index/data_row_index are physical line numbers: blank lines are kept out of the header zone"])
+
+add("C20", "TestC20", race=True, note_current=True,
+    rule=("Cases, three kinds: seq (one goroutine, <= 40 JavaScript / JavaScriptWithContext calls), conc (2-8 goroutines with <= 8 calls "
+          "each, started and joined by the check), stack (an xml, json or edi gen.Shape with 1-6 records and 1-5 javascript / "
+          "javascript_with_context fields anchored at '.', '..' or '../..', run through NewSchema and Read). Scripts: probes of the four "
+          "argument names and _node, Object.keys(this), expressions over the call's own arguments, 26 constant result shapes (ints, "
+          "fractions, -0, 2^53+1, strings, booleans, arrays, nested objects), 16 error shapes (NaN, +-Infinity, null, undefined, throw), "
+          "_node scripts; arguments strings, ints, floats, bools; nodes mutated between calls. Oracle: each result equals the same "
+          "script on a brand-new goja runtime created in the harness with _node = idr.JSONify2(node now): error <=> error, equal JSON. "
+          "Built with -race. Non-trivial: a call probes a name that an earlier call on the same goroutine/transform set, or a _node call "
+          "hits a node whose JSON differs from its previous _node call; distinct by SHA-256 of the case."),
+    quick={"checks": 300, "shards": 4, "timeout": 900, "gomaxprocs": 8},
+    thorough={"checks": 8000, "shards": 16, "timeout": 3300, "gomaxprocs": 8},
+    floors={},
+    assumptions=["scripts that assign globals (incl. top-level var), loop, or use Date/Math.random are excluded by the statement",
+                 "the error classification of the reference is done in JavaScript inside the fresh runtime"])
+
+META["C06"] = {
+    "technique": "round-trip property-based testing (generator's table as model, own RFC-4180 / fixed-width writers)",
+    "design_ref": "DESIGN.md §5 C06",
+    "level_text": ("Generated tables rendered by own writers and read back through all four delimited / fixed-length readers with a "
+                   "pass-through schema; every column of every record must equal the model. Sizes are aimed at the 4096 / 8192 / 65536 "
+                   "buffer boundaries. Exploration."),
+    "level_note": "Trusted: the harness' writers and the naive model (gen.Table.Expect).",
+}
+META["C20"] = {
+    "technique": "stateful differential property-based testing vs a fresh goja VM per call, under the race detector",
+    "design_ref": "DESIGN.md §5 C20",
+    "level_text": ("Generated call sequences, concurrent mixes and full-stack schemas; every javascript result is compared with the same "
+                   "script on a brand-new runtime, which makes history-independence and faithful value mapping one comparison. "
+                   "Exploration; concurrent arm asserts only schedule-independent facts."),
+    "level_note": "Trusted: goja itself (the same engine, but a fresh instance) as the reference for script semantics.",
+}
